@@ -169,4 +169,6 @@ def _adjust_modulus_offset(
             results.append(res)
             prog.increment()
 
-    return sorted(results, key=lambda _: _[0])
+    # Ties are broken using the names of the options so that the order of the
+    # results does not depend on the order in which the processes finish.
+    return sorted(results, key=lambda _: (_[0], _[2], _[3], _[4]))
